@@ -99,3 +99,24 @@ for _c in list(_REG):
         _c2.prop = 'C13'
         _c2.name = 'C13/host.' + _c.name.split('/', 1)[1]
         _REG.append(_c2)
+
+
+# the serial bring-up of a PN532 writes hand-built frames (GetFirmwareVersion, SAMConfiguration, SetSerialBaudrate
+# with the data checksum computed in place): every one of them is well formed, for every speed the host's stty
+# accepts, every platform answer and every answer of the chip.  The file system and stty are arbitrary (open() fails
+# or yields any content, os.system returns any status): not replayable natively.
+# (the Chipset/Device constructors that follow talk through Chipset.command, which has its own contract above)
+contract('nfc.clf.pn53x:Chipset.__init__', 'C14', dict(self=Any(), transport=Any(), logger=Any()),
+         name='C14/pn53x.Chipset.__init__', assumed=True,
+         note='constructor: chip diagnostics through Chipset.command (C14/pn53x.command)',
+         raises={'IOError': [], 'nfc.clf.pn53x:Chipset.Error': []})
+contract('nfc.clf.pn532:Device.__init__', 'C14', dict(self=Any(), chipset=Any(), logger=Any()),
+         name='C14/pn532.Device.__init__', assumed=True,
+         note='constructor: chip configuration through Chipset.command (C14/pn53x.command)',
+         raises={'IOError': [], 'nfc.clf.pn53x:Chipset.Error': []})
+contract('nfc.clf.pn532:init', 'C14',
+         dict(transport=Obj('models.hostlink:TtyTransport', _partial=False, written=0, baudrate=115200)),
+         name='C14/pn532.init[tty]', native=False,
+         use=['C14/pn53x.Chipset.__init__', 'C14/pn532.Device.__init__'],
+         ensures=[('post.frames', 'transport.written >= 2')],
+         raises={'IOError': [], 'nfc.clf.pn53x:Chipset.Error': []}, max_paths=6000)
